@@ -388,7 +388,7 @@ func pureSSA(p *core.Program, fn *ssa.Function, depth int) bool {
 					}
 					return false
 				}
-				cal := in.Call.StaticCallee()
+				cal := core.Callee(&in.Call)
 				if cal == nil || !p.InScope(cal) || !pureSSA(p, cal, depth+1) {
 					return false
 				}
@@ -821,6 +821,22 @@ func (s *mrState) totalKeySort(call *ast.CallExpr, ci *collectInfo, shape keySha
 				return true, full + " on sort.StringSlice (total order on the keys)"
 			}
 		}
+		// a named slice type of the tree with its own Less: judged like a comparator literal, with the receiver as
+		// the slice (type AccRows []AccRow; func (r AccRows) Less(i, j int) bool { return r[i].Name < r[j].Name })
+		if argIs(0) && !shape.self && len(call.Args) == 1 {
+			if tv, ok := s.info.Types[call.Args[0]]; ok {
+				if lit, recv, info := s.lessMethodOf(tv.Type); lit != nil {
+					if ci.nested && full == "sort.Sort" {
+						return false, "elements collected in a nested loop may share a key; an unstable sort leaves their order to the input permutation"
+					}
+					ok, why := comparatorTotalOnKey(info, lit, recv, shape)
+					if !ok {
+						return false, "Less of " + tv.Type.String() + ": " + why
+					}
+					return true, full + " with Less of " + tv.Type.String() + ": " + why
+				}
+			}
+		}
 		return false, "sort.Interface whose Less is not known to be total on the key"
 	case "(sort.StringSlice).Sort":
 		// keys.Sort(), sort.StringSlice(keys).Sort(), sort.StringSlice.Sort(keys)
@@ -981,4 +997,36 @@ func RuleMapRanges(c *core.Ctx, rule string, filter func(mapRangeSite) bool) int
 		}
 	}
 	return n
+}
+
+// lessMethodOf finds the declaration of the Less method of a named slice type of the tree and hands it back in the
+// form of a comparator literal, together with the receiver variable (the slice) and the type information of the
+// package that declares it.
+func (s *mrState) lessMethodOf(t types.Type) (*ast.FuncLit, types.Object, *types.Info) {
+	nt, ok := t.(*types.Named)
+	if !ok || nt.Obj().Pkg() == nil {
+		return nil, nil, nil
+	}
+	if _, isSlice := nt.Underlying().(*types.Slice); !isSlice {
+		return nil, nil, nil
+	}
+	for _, pkg := range s.p.Roots {
+		if pkg.Types != nt.Obj().Pkg() {
+			continue
+		}
+		for _, file := range pkg.Syntax {
+			for _, d := range file.Decls {
+				fd, ok := d.(*ast.FuncDecl)
+				if !ok || fd.Name.Name != "Less" || fd.Recv == nil || len(fd.Recv.List) != 1 || len(fd.Recv.List[0].Names) != 1 || fd.Body == nil {
+					continue
+				}
+				recv := pkg.TypesInfo.Defs[fd.Recv.List[0].Names[0]]
+				if recv == nil || !types.Identical(recv.Type(), nt) {
+					continue
+				}
+				return &ast.FuncLit{Type: fd.Type, Body: fd.Body}, recv, pkg.TypesInfo
+			}
+		}
+	}
+	return nil, nil, nil
 }
